@@ -118,6 +118,9 @@ func c16FaultLines(fault string, variant ...int) []string {
 		return c16UnknownProcessor[v%len(c16UnknownProcessor)]
 	case "bad-cmdline-type":
 		return c16BadCmdlineType[v%len(c16BadCmdlineType)]
+	case "unsupported-flag":
+		// spellings: a foreign letter, the upper-case forms of the two supported letters, a bad letter after a good one
+		return []string{[]string{"##!+ x", "##!+ I", "##!+ S", "##!+ iS", "##!+ sI", "##!+ m", "##!+ U"}[v%7]}
 	}
 	return c16FaultLinesPlain(fault)
 }
